@@ -362,7 +362,7 @@ func (e *Engine) applyContract(s *State, f *Frame, x ssa.Instruction, callee *ss
 		if !e.clauseApplies(cl) || cl.Tag == "local" || ct.mentionsLogical(cl.Expr) {
 			continue // `ensures[local]`: proved for the function itself, not exported to callers
 		}
-		if cl.Props != nil && e.curProp != "" && !contains(cl.Props, e.curProp) {
+		if cl.OwnOnly && cl.Props != nil && e.curProp != "" && !contains(cl.Props, e.curProp) {
 			continue // a postcondition stated for other properties only: not needed (and not assumed) in this check
 		}
 		s.assume(c.evalBool(cl.Expr))
